@@ -160,3 +160,148 @@ Section Values.
       end
     end.
 End Values.
+
+(* ---------------------------------------------------------------------------------------------------------------
+   Extension: quantities inside tvector / stensor / st2tost2, math functions, element access, references and views.
+   A type is (shape, element type); the element type is `TS` (double) or `TQ u` (qt<u>, qt_ref<u>, const_qt_ref<u>).
+   A declaration also says whether the object can be written (const_qt_ref and views of const objects cannot).
+   Views (map<stensor<N, qt<U>>> of a pointer to double), qt_ref and const_qt_ref are declared variables: they are typed as
+   what they view.  `None` = rejected by the compiler, or outside the modelled fragment (stensor * stensor,
+   tvector ^ tvector, abs/power of a tensor, ...: never generated). *)
+Record decl := mkdecl { d_shape : shape; d_ty : ty; d_mut : bool }.
+Inductive xstmt :=
+| XCmp (a b : xexpr)
+| XAssign (i : nat) (e : xexpr)       (* v_i = e, += , -= *)
+| XAssignElem (i : nat) (e : xexpr)   (* v_i(k) = e: assignment through the reference returned by operator() *)
+| XScale (i : nat) (e : xexpr)        (* v_i *= e, /= *)
+| XEval (e : xexpr).
+Definition xty := (shape * ty)%type.
+
+Definition ty_mul (a b : ty) : ty :=
+  match a, b with TS, TS => TS | TQ u, TS | TS, TQ u => TQ u | TQ u, TQ v => TQ (u_add u v) end.
+Definition ty_div (a b : ty) : ty :=
+  match a, b with TS, TS => TS | TQ u, TS => TQ u | TS, TQ v => TQ (u_sub u_none v) | TQ u, TQ v => TQ (u_sub u v) end.
+Definition ty_pow (n : Z) (d : positive) (a : ty) : ty := match a with TS => TS | TQ u => TQ (u_pow n d u) end.
+(* std::exp, std::log, ... only see a quantity through the implicit conversion of qt<NoUnit, T> to T: result double *)
+Definition ty_fn (a : ty) : option ty := match a with TS => Some TS | TQ u => if is_none u then Some TS else None end.
+Definition xbin (fs : shape -> shape -> option shape) (ft : ty -> ty -> option ty) (x y : option xty) : option xty :=
+  match x, y with
+  | Some (s1, t1), Some (s2, t2) => match fs s1 s2, ft t1 t2 with Some s, Some t => Some (s, t) | _, _ => None end
+  | _, _ => None
+  end.
+Definition xsc1 (f : ty -> option ty) (x : option xty) : option xty :=
+  match x with Some (Sc, t) => option_map (pair Sc) (f t) | _ => None end.
+Definition xelem (x : option xty) : option xty :=
+  match x with Some (Sc, _) => None | Some (_, t) => Some (Sc, t) | None => None end.
+Definition t_mul (a b : ty) : option ty := Some (ty_mul a b).
+Definition t_div (a b : ty) : option ty := Some (ty_div a b).
+(* may a value of type `t` be stored into an object whose elements have type `U`? (=, +=, -=) *)
+Definition storable (U t : ty) : bool :=
+  match U, t with
+  | TQ U', TQ u => u_eqb U' u          (* areUnitsEqual *)
+  | TQ U', TS => is_none U'            (* only NoUnit quantities accept a plain number *)
+  | TS, TS => true
+  | TS, TQ u => is_none u              (* implicit conversion of qt<NoUnit> to its value *)
+  end.
+Definition is_sc (s : shape) : bool := match s with Sc => true | _ => false end.
+Definition same_shape (a b : shape) : bool := match shape_same a b with Some _ => true | None => false end.
+
+Section XTyping.
+  Variable G : list decl.
+  Fixpoint typeofX (e : xexpr) : option xty :=
+    match e with
+    | XVar i => option_map (fun d => (d_shape d, d_ty d)) (nth_error G i)
+    | XLit _ => Some (Sc, TS)
+    | XAdd a b | XSub a b => xbin shape_same ty_addsub (typeofX a) (typeofX b)
+    | XMul a b => xbin shape_mul t_mul (typeofX a) (typeofX b)
+    | XDiv a b => xbin shape_div t_div (typeofX a) (typeofX b)
+    | XNeg a => typeofX a
+    | XPow n d a => xsc1 (fun t => Some (ty_pow n d t)) (typeofX a)
+    | XSqrt a => xsc1 (fun t => Some (ty_pow 1 2 t)) (typeofX a)      (* square_root(q) *)
+    | XCbrt a => xsc1 (fun t => Some (ty_pow 1 3 t)) (typeofX a)      (* power<1, 3>(q): TFEL has no cbrt on quantities *)
+    | XAbs a => xsc1 Some (typeofX a)                                  (* tfel::math::abs *)
+    | XFn _ a => xsc1 ty_fn (typeofX a)
+    | XInner a b => xbin shape_inner t_mul (typeofX a) (typeofX b)
+    | XDyad a b => xbin shape_dyad t_mul (typeofX a) (typeofX b)
+    | XElem a => xelem (typeofX a)
+    end.
+  Definition acceptsX (s : xstmt) : bool :=
+    match s with
+    | XEval e => match typeofX e with Some _ => true | None => false end
+    | XCmp a b =>
+      match typeofX a, typeofX b with
+      | Some (Sc, x), Some (Sc, y) => match ty_addsub x y with Some _ => true | None => false end
+      | _, _ => false
+      end
+    | XAssign i e =>
+      match nth_error G i, typeofX e with
+      | Some d, Some (s, t) => d_mut d && same_shape (d_shape d) s && storable (d_ty d) t
+      | _, _ => false
+      end
+    | XAssignElem i e =>
+      match nth_error G i, typeofX e with
+      | Some d, Some (Sc, t) => d_mut d && negb (is_sc (d_shape d)) && storable (d_ty d) t
+      | _, _ => false
+      end
+    | XScale i e =>
+      match nth_error G i, typeofX e with
+      | Some d, Some (Sc, t) => d_mut d && match ty_fn t with Some _ => true | None => false end
+      | _, _ => false
+      end
+    end.
+End XTyping.
+
+Section XValues.
+  Variable V : Type.     (* values of any shape; operations abstract *)
+  Variables (vadd vsub vmul vdiv vinner vdyad : V -> V -> V) (vneg vsqrt vcbrt vabs velem : V -> V)
+            (vpow : Z -> positive -> V -> V) (vfn : nat -> V -> V) (vlit : nat -> V).
+  Variable G : list decl.
+  Variable env : nat -> V.
+  Fixpoint erase_evalX (e : xexpr) : V :=
+    match e with
+    | XVar i => env i
+    | XLit k => vlit k
+    | XAdd a b => vadd (erase_evalX a) (erase_evalX b)
+    | XSub a b => vsub (erase_evalX a) (erase_evalX b)
+    | XMul a b => vmul (erase_evalX a) (erase_evalX b)
+    | XDiv a b => vdiv (erase_evalX a) (erase_evalX b)
+    | XNeg a => vneg (erase_evalX a)
+    | XPow n d a => vpow n d (erase_evalX a)
+    | XSqrt a => vsqrt (erase_evalX a)
+    | XCbrt a => vcbrt (erase_evalX a)
+    | XAbs a => vabs (erase_evalX a)
+    | XFn k a => vfn k (erase_evalX a)
+    | XInner a b => vinner (erase_evalX a) (erase_evalX b)
+    | XDyad a b => vdyad (erase_evalX a) (erase_evalX b)
+    | XElem a => velem (erase_evalX a)
+    end.
+  (* reference semantics: every value carries its shape and unit, checked at each operation *)
+  Definition qbin fs ft (f : V -> V -> V) (x y : option (xty * V)) : option (xty * V) :=
+    match x, y with
+    | Some (tx, va), Some (ty', vb) => option_map (fun t => (t, f va vb)) (xbin fs ft (Some tx) (Some ty'))
+    | _, _ => None
+    end.
+  Definition qun (g : option xty -> option xty) (f : V -> V) (x : option (xty * V)) : option (xty * V) :=
+    match x with
+    | Some (tx, va) => option_map (fun t => (t, f va)) (g (Some tx))
+    | None => None
+    end.
+  Fixpoint qevalX (e : xexpr) : option (xty * V) :=
+    match e with
+    | XVar i => option_map (fun d => ((d_shape d, d_ty d), env i)) (nth_error G i)
+    | XLit k => Some ((Sc, TS), vlit k)
+    | XAdd a b => qbin shape_same ty_addsub vadd (qevalX a) (qevalX b)
+    | XSub a b => qbin shape_same ty_addsub vsub (qevalX a) (qevalX b)
+    | XMul a b => qbin shape_mul t_mul vmul (qevalX a) (qevalX b)
+    | XDiv a b => qbin shape_div t_div vdiv (qevalX a) (qevalX b)
+    | XNeg a => qun (fun x => x) vneg (qevalX a)
+    | XPow n d a => qun (xsc1 (fun t => Some (ty_pow n d t))) (vpow n d) (qevalX a)
+    | XSqrt a => qun (xsc1 (fun t => Some (ty_pow 1 2 t))) vsqrt (qevalX a)
+    | XCbrt a => qun (xsc1 (fun t => Some (ty_pow 1 3 t))) vcbrt (qevalX a)
+    | XAbs a => qun (xsc1 Some) vabs (qevalX a)
+    | XFn k a => qun (xsc1 ty_fn) (vfn k) (qevalX a)
+    | XInner a b => qbin shape_inner t_mul vinner (qevalX a) (qevalX b)
+    | XDyad a b => qbin shape_dyad t_mul vdyad (qevalX a) (qevalX b)
+    | XElem a => qun xelem velem (qevalX a)
+    end.
+End XValues.
